@@ -46,8 +46,8 @@ func guarded(f func()) (panicMsg, hang string) {
 	}()
 	select {
 	case <-done:
-	case <-time.After(90 * time.Second):
-		hang = "no return within 90 s wall clock (normal: milliseconds)"
+	case <-time.After(40 * time.Second):
+		hang = "no return within 40 s wall clock (normal: milliseconds)"
 	}
 	return
 }
@@ -173,7 +173,35 @@ func patchMessages(rp *RefPatch) []proto.Message {
 
 // mutateMessages applies 1-3 field-level mutations to the series messages (never to the two
 // containers) and returns a description.
-func mutateMessages(rt *rapid.T, msgs []proto.Message, nfilesOld, nfilesNew int) ([]proto.Message, []string) {
+// bsdiffOldPos returns, for message index i inside a bsdiff series, the absolute old offset before
+// message i and the size of the series' old file (ok=false if i is not inside a bsdiff series).
+func bsdiffOldPos(msgs []proto.Message, i int, oldSizes []int64) (pos, size int64, ok bool) {
+	start := -1
+	for j := i; j >= 0; j-- {
+		if bh, is := msgs[j].(*pwr.BsdiffHeader); is {
+			start = j
+			if bh.TargetIndex < 0 || bh.TargetIndex >= int64(len(oldSizes)) {
+				return 0, 0, false
+			}
+			size = oldSizes[bh.TargetIndex]
+			break
+		}
+		if _, is := msgs[j].(*pwr.SyncHeader); is {
+			return 0, 0, false
+		}
+	}
+	if start < 0 {
+		return 0, 0, false
+	}
+	for j := start + 1; j < i; j++ {
+		if c, is := msgs[j].(*bsdiff.Control); is {
+			pos += int64(len(c.Add)) + c.Seek
+		}
+	}
+	return pos, size, true
+}
+
+func mutateMessages(rt *rapid.T, msgs []proto.Message, nfilesOld, nfilesNew int, oldSizes ...int64) ([]proto.Message, []string) {
 	out := make([]proto.Message, len(msgs))
 	for i, m := range msgs {
 		out[i] = proto.Clone(m)
@@ -217,6 +245,13 @@ func mutateMessages(rt *rapid.T, msgs []proto.Message, nfilesOld, nfilesNew int)
 				out = append(out[:i], out[i+1:]...)
 				desc = append(desc, fmt.Sprintf("msg %d SyncOp (type %v) dropped", i, m.Type))
 			case 5:
+				if rapid.Bool().Draw(rt, "insertrange") {
+					// an extra block range with hostile fields right after this op
+					extra := &pwr.SyncOp{Type: pwr.SyncOp_BLOCK_RANGE, FileIndex: evil, BlockIndex: rapid.SampledFrom(evilInts).Draw(rt, "evil4"), BlockSpan: rapid.SampledFrom(evilInts).Draw(rt, "evil5")}
+					out = append(out[:i+1], append([]proto.Message{extra}, out[i+1:]...)...)
+					desc = append(desc, fmt.Sprintf("BLOCK_RANGE(%d,%d,%d) inserted after msg %d", extra.FileIndex, extra.BlockIndex, extra.BlockSpan, i))
+					break
+				}
 				out = append(out[:i+1], append([]proto.Message{proto.Clone(m)}, out[i+1:]...)...)
 				desc = append(desc, fmt.Sprintf("msg %d SyncOp (type %v) duplicated", i, m.Type))
 			default:
@@ -228,7 +263,17 @@ func mutateMessages(rt *rapid.T, msgs []proto.Message, nfilesOld, nfilesNew int)
 			m.TargetIndex = evil
 			desc = append(desc, fmt.Sprintf("msg %d BsdiffHeader.TargetIndex=%d", i, evil))
 		case *bsdiff.Control:
-			switch rapid.IntRange(0, 4).Draw(rt, "ctrlmut") {
+			cm := rapid.IntRange(0, 6).Draw(rt, "ctrlmut")
+			if cm >= 5 {
+				// leave the old offset exactly at (or next to) the end of the old file
+				if pos, size, ok := bsdiffOldPos(out, i, oldSizes); ok {
+					m.Seek = size - (pos + int64(len(m.Add))) + int64(rapid.IntRange(-1, 1).Draw(rt, "endd"))
+					desc = append(desc, fmt.Sprintf("msg %d Control.Seek=%d (old offset -> end of old file %d)", i, m.Seek, size))
+					continue
+				}
+				cm = 0
+			}
+			switch cm {
 			case 0:
 				m.Seek = evil
 				desc = append(desc, fmt.Sprintf("msg %d Control.Seek=%d", i, evil))
@@ -429,7 +474,11 @@ func TestC10(t *testing.T) {
 		}
 		msgs := patchMessages(rp)
 		for m := 0; m < 14; m++ {
-			mut, desc := mutateMessages(rt, msgs, len(rp.Target.Files), len(rp.Source.Files))
+			var oldSizes []int64
+			for _, f := range rp.Target.Files {
+				oldSizes = append(oldSizes, f.Size)
+			}
+			mut, desc := mutateMessages(rt, msgs, len(rp.Target.Files), len(rp.Source.Files), oldSizes...)
 			if len(desc) == 0 {
 				continue
 			}
